@@ -1088,6 +1088,9 @@ func (sb *seqbag) MaxNameLength() (max int) {
 // The map in argument is updated with new oldname=>newname key values
 func (sb *seqbag) TrimNames(namemap map[string]string, size int) error {
 	shortmap := make(map[string]bool)
+	// Names are edited in place: the name index is rebuilt at the end
+	// (also if we stop on an error after having renamed some sequences)
+	defer sb.reindex()
 	if math.Pow10(size-2) < float64(sb.NbSequences()) {
 		return fmt.Errorf("new name size (%d) does not allow to identify that amount of sequences (%d)",
 			size-2, sb.NbSequences())
@@ -1122,9 +1125,7 @@ func (sb *seqbag) TrimNames(namemap map[string]string, size int) error {
 			shortmap[newname] = true
 			namemap[seq.Name()] = newname
 		}
-		delete(sb.seqmap, seq.name)
 		seq.name = newname
-		sb.seqmap[seq.name] = seq
 	}
 
 	return nil
